@@ -41,6 +41,7 @@ func (c10) Assumptions() []string {
 type c10wit struct {
 	Fragments []string          `json:"fragments"`
 	Modules   map[string]string `json:"modules,omitempty"`
+	Builtin   []string          `json:"builtin_modules,omitempty"`
 	Opts      string            `json:"opts"`
 	At        int               `json:"fragment_index"`
 	Why       string            `json:"why"`
@@ -124,8 +125,17 @@ func (s *c10session) run(frag string) (r c10res, pan string) {
 		r.CompileErr = bc == nil
 		if r.CompileErr {
 			// drop positions: "\n\tat (main):4:9"
-			if i := strings.Index(r.Err, "\n\tat "); i >= 0 {
+			// multiple optimizer errors: "wrapped:X:N errors occurred:\n\t* first ...": the count depends on the
+			// number of optimizer passes, keep only the first error's text
+			if i := strings.Index(r.Err, " errors occurred:\n\t* "); i >= 0 {
+				r.Err = "multi:" + r.Err[i+len(" errors occurred:\n\t* "):]
+			}
+			if i := strings.Index(r.Err, "\n"); i >= 0 {
 				r.Err = r.Err[:i]
+			}
+			r.Err = strings.TrimPrefix(r.Err, "multi:")
+			if i := strings.Index(r.Err, "Optimizer Error: "); i >= 0 {
+				r.Err = r.Err[i:]
 			}
 		}
 	} else {
@@ -233,7 +243,7 @@ func (m c10) checkCutting(c *core.Ctx, stmts []string, infos []*stmtInfo, mask u
 		fresh := newC10session(optKind, moduleMapFor(p))
 		fr2, fpan := fresh.run(strings.Join(frags[:i+1], "\n"))
 		wit := func(why string) c10wit {
-			return c10wit{Fragments: frags, Modules: modules, Opts: optKind, At: i, Why: why, Session: sr, Fresh: fr2}
+			return c10wit{Fragments: frags, Modules: modules, Builtin: builtin, Opts: optKind, At: i, Why: why, Session: sr, Fresh: fr2}
 		}
 		if span != "" || fpan != "" {
 			c.Violation("C10|panic|"+core.NormMsg(span+fpan), "Eval.Run panics: "+span+fpan, wit("panic"))
@@ -314,6 +324,8 @@ var c10fixed = []string{
 	"global L\nvar cnt = 0\ninc := func() { cnt += 1; return cnt }\ntry {\n  inc()\n  throw \"x\"\n} catch e {\n  L(e.Message)\n} finally {\n  inc()\n}\ninc()\ncnt",
 	"global L\na, b := [1, 2]\nb, c := [3, 4]\nfs := []\nfor i := 0; i < 2; i++ {\n  fs = append(fs, func() { return i + a })\n}\na = 100\n[fs[0](), fs[1](), b, c]",
 	"global (L, G)\nG = G + 1\nglobal H\nH = G * 2\nq := func() { return H + G }\nG = 0\nq()",
+	"global L\na := -0.0\nb := 0.0\nstring(b)\nc := 0.0 * -1.0\n[string(a), string(b), string(c), 1 / 2.0]",
+	"global L\nf := 1.5\ng := 1.5\nh := 15u\ni := 15\nj := 'a'\nk := 97\n[f, g, h, i, j, k, typeName(h), typeName(j)]",
 	"global L\nx := 1\nx := 2\nx",
 	"global L\nx := 1\ny := x / 0\nz := 5\nz",
 }
@@ -328,7 +340,7 @@ func (m c10) Run(c *core.Ctx) {
 			for i := range infos {
 				infos[i] = &stmtInfo{declares: map[string]bool{}, uses: map[string]bool{}}
 			}
-			m.checkCutting(c, w.Fragments, infos, (1<<uint(len(w.Fragments)-1))-1, w.Modules, nil, w.Opts)
+			m.checkCutting(c, w.Fragments, infos, (1<<uint(len(w.Fragments)-1))-1, w.Modules, w.Builtin, w.Opts)
 		}
 		return
 	}
